@@ -38,3 +38,4 @@ PROPERTY DF_InplaceReturnsSelf
 PROPERTY DF_AffineExact
 PROPERTY DF_Integrate
 PROPERTY DF_SetSub
+PROPERTY DF_QueryPure
